@@ -351,6 +351,12 @@ def _single_defs(fnode):
     """{local name: value expr} for names assigned exactly once in the
     function by a plain `name = expr` (not in a loop target / with / aug)."""
     counts, vals = {}, {}
+    if isinstance(fnode, (ast.FunctionDef, ast.AsyncFunctionDef)):
+        a = fnode.args
+        for x in a.posonlyargs + a.args + a.kwonlyargs + \
+                [y for y in (a.vararg, a.kwarg) if y is not None]:
+            counts[x.arg] = 1
+            vals[x.arg] = None
     for n in own_nodes(fnode):
         tg = []
         if isinstance(n, ast.Assign):
